@@ -18,7 +18,7 @@ for c, d in C19_CASES.items():
 FL_OPS = {1: 'allocate', 2: 'deallocate', 3: 'allocate_n', 4: 'deallocate_n', 5: 'insert', 6: 'ctor',
           7: 'move_ctor', 8: 'move_assign', 9: 'swap', 10: 'roundtrip_n', 11: 'double_free'}
 FL_PROPS = {1: ['C01', 'C02', 'C16', 'C17'], 2: ['C01', 'C04', 'C16', 'C17'], 3: ['C01', 'C02', 'C04', 'C17'], 4: ['C01', 'C04', 'C16'],
-            5: ['C01', 'C02', 'C18'], 6: ['C01', 'C18'], 7: ['C12'], 8: ['C12'], 9: ['C12'], 10: ['C04', 'C18'], 11: ['C16']}
+            5: ['C01', 'C02', 'C04', 'C18'], 6: ['C01', 'C18'], 7: ['C12'], 8: ['C12'], 9: ['C12'], 10: ['C04', 'C18'], 11: ['C16']}
 def ns_split(n): return ('ns%d' % n, n, ['NS_MIN=%d' % n, 'NS_MAX=%d' % n])
 NS_SPLITS_QUICK = [ns_split(8), ns_split(12)]
 NS_SPLITS_MORE = [ns_split(n) for n in (9, 16)]
@@ -158,3 +158,22 @@ for op in range(1, 13):
 ms_jobs(11, 'debug8', 'thorough', timeout=3000, mem=24)
 ms_jobs(2, 'debug8', 'thorough', timeout=3000, mem=24)
 ms_jobs(4, 'debug8', 'thorough', timeout=3000, mem=24)
+
+# ---------------------------------------------------------------- memory_pool_collection<node_pool, log2_buckets> steps
+CO_OPS = {1: 'ctor', 2: 'allocate_node', 3: 'try_allocate_node', 4: 'deallocate_node', 5: 'try_deallocate_node', 6: 'dtor', 7: 'allocate_array', 8: 'try_allocate_array'}
+CO_PROPS = {1: ['C01', 'C03', 'C18'], 2: ['C01', 'C02', 'C03', 'C04'], 3: ['C01', 'C02', 'C03', 'C04'], 4: ['C01', 'C04', 'C18'], 5: ['C08', 'C04'],
+            6: ['C05'], 7: ['C01', 'C02', 'C03'], 8: ['C01', 'C02', 'C03']}
+def co_jobs(op, config, tier, nslot=2, restmax=48, timeout=900, mem=12):
+    add('coll-%s-%s-s%d-r%d' % (CO_OPS[op], config, nslot, restmax), CO_PROPS[op], 'pool', 'coll_step.c', config=config,
+        defines=['OP=%d' % op, 'NSLOT=%d' % nslot, 'RESTMAX=%d' % restmax, 'MAXB=4', 'HEAP_SIZE=480'], unwind=24,
+        unwindset=['ir_ctlz.0:65', 'ir_ctpop.0:65'], timeout=timeout, tier=tier, mem_gb=mem,
+        desc='memory_pool_collection<node_pool, log2_buckets>::%s from an arbitrary valid state' % CO_OPS[op],
+        bounds='1..2 used blocks, %d reserved 16-byte slots per block each LIVE / free on the 16-list / free on the 8-list (chains in symbolic order), unreserved rest 0..%d bytes, request size 1..16, upstream may fail' % (nslot, restmax))
+for op in (1, 4, 5, 6):
+    co_jobs(op, 'release', 'quick')
+for op in (2, 3):
+    co_jobs(op, 'release', 'quick', nslot=1, restmax=40)
+for op in (2, 3, 7, 8):
+    co_jobs(op, 'release', 'thorough', timeout=3000, mem=24)
+for op in range(1, 9):
+    co_jobs(op, 'baseline', 'thorough', timeout=3000, mem=24)
